@@ -28,6 +28,7 @@ RUNS = {'quick': 12000, 'thorough': 400000}
 SWEEP = True
 SWEEP_CAP = {'quick': 24, 'thorough': 64}
 BATCH = 100
+BATCH_TIMEOUT = 180      # a worker spinning inside synchronous Falcon code is a HARNESS-ERROR after 3 min
 RULE = ('one workload = one reference-encoded form (0-5 parts, boundary 1-70 chars, names/filenames plain '
         'or RFC 5987, contents biased to CR/LF/dashes/delimiter prefixes and look-alikes, optional '
         'preamble/epilogue/final CRLF) x per-part consumption plan (skip, partial/looped/full stream '
@@ -610,6 +611,24 @@ async def consume_async(part, pat, rec, cap):
         pieces.append(await s.read())
 
 
+class _ReadBudget(object):
+    """Read-call budget on the source of a synchronous part stream (its parent
+    reader): a reader spinning on a source that keeps answering b'' makes no
+    wsgi.input call, so SimInput's own budget never sees it. BaseException so
+    that Falcon cannot swallow it (R7)."""
+    __slots__ = ('fn', 'left')
+
+    def __init__(self, fn, budget):
+        self.fn = fn
+        self.left = budget
+
+    def __call__(self, *a, **kw):
+        self.left -= 1
+        if self.left < 0:
+            raise SimBudgetExceeded('part stream source called more often than the budget allows')
+        return self.fn(*a, **kw)
+
+
 class _SyncRes(object):
     fn = None
 
@@ -667,6 +686,9 @@ def run_wsgi(ctx, w, data, cl, truncated):
                 rec = _new_rec(i, pat)
                 recs.append(rec)
                 _hdr_fields(part, rec)
+                rf = getattr(part.stream, '_read_func', None)
+                if rf is not None:
+                    part.stream._read_func = _ReadBudget(rf, 40 * cap)
                 try:
                     consume_sync(part, pat, rec, cap)
                     rec['done'] = True
@@ -694,7 +716,7 @@ def run_wsgi(ctx, w, data, cl, truncated):
         if ex.call(app, env):
             ex.consume()
     except SimBudgetExceeded as bex:
-        obs['hang'] = 'wsgi.input call budget exceeded (%s)' % (bex,)
+        obs['hang'] = 'read-call budget exceeded (%s)' % (bex,)
     if ex.app_exc is not None:
         obs['escaped'] = classify(ex.app_exc)
     obs['calls'] = inp.calls
@@ -947,26 +969,26 @@ def judge_valid(ctx, stack, obs, w, exp):
     if term is None:
         return       # blocked / budget: hang verdict
     lim_oracle = 'multipart.limit.' + w.limit if w.limit in ('count', 'headers') else 'multipart.parts'
-    if exp_term[0] == 'error':
-        ctx.probe('limit_error_expected')
-        if len(recs) == len(exp_recs) and term[0] == 'error' and is_4xx(term[1]):
-            return
-        ctx.violate(lim_oracle, '[%s] expected the parse error (%s) when reaching part %d; observed %d part(s) '
-                    'and outcome %r (max_body_part_count %d, max_body_part_headers_size %d, header sizes %r)' % (
-                        stack, exp_term[1], len(exp_recs), len(recs), term, w.max_count, w.max_hdr,
-                        [len(p.headers_block) for p in w.parts]),
-                    stack=stack, what='missing_or_misplaced_error', cs=cs)
-        return
-    if term[0] == 'error':
+    hdr_sizes = [len(p.headers_block) for p in w.parts]
+    if term[0] == 'error' and (exp_term[0] != 'error' or term[1][:2] != ('http', 400)):
+        # an error nobody asked for (or one that is not the parse error)
         is400 = term[1][:2] == ('http', 400)
         ctx.violate(lim_oracle if is400 else 'multipart.parts',
                     '[%s] iteration raised %s after %d part(s) on a valid form of %d part(s) '
                     '(max_body_part_count %d, max_body_part_headers_size %d, header sizes %r, request '
-                    'Content-Type %r)' % (
-                        stack, term[1][2], len(recs), len(w.parts), w.max_count, w.max_hdr,
-                        [len(p.headers_block) for p in w.parts], w.ctype),
+                    'Content-Type %r)' % (stack, term[1][2], len(recs), len(w.parts), w.max_count, w.max_hdr,
+                                          hdr_sizes, w.ctype),
                     stack=stack, what='unexpected_error', exc=term[1][2], cs=cs,
                     after=recs[-1]['pat'][0] if recs else 'start', boundary_comma=b',' in w.boundary)
+        return
+    if exp_term[0] == 'error':
+        ctx.probe('limit_error_expected')
+        if len(recs) == len(exp_recs) and term[0] == 'error':
+            return
+        ctx.violate(lim_oracle, '[%s] expected the parse error (%s) when reaching part %d; observed %d part(s) '
+                    'and outcome %r (max_body_part_count %d, max_body_part_headers_size %d, header sizes %r)' % (
+                        stack, exp_term[1], len(exp_recs), len(recs), term, w.max_count, w.max_hdr, hdr_sizes),
+                    stack=stack, what='missing_or_misplaced_error', cs=cs)
         return
     if len(recs) != len(exp_recs) or term != exp_term:
         ctx.violate('multipart.parts', '[%s] iteration yielded %d part(s) and ended %r; encoded %d part(s), '
